@@ -17,7 +17,7 @@ Completeness of the builders (converse of R2): vocabulary.
                     although the documented mapping says `null`; unions have at most 128 variants (type ids are
                     `i8`).  Since repo fix 837fa53 a union takes `serialize_default` through its first variant
                     that is not a placeholder (`defOKFirst`); before, through variant 0 whatever it was.
-                    Since repo fix fe68100 (checked row counters of unions) a default is one ROW of that variant:
+                    With repo fix 217d612 (checked row counters of unions) a default is one ROW of that variant:
                     a `None` of a `FixedSizeList(_, m)` (size 1) sends `m` defaults to its child, which would
                     take `m` units of the head room of a union reachable by defaults below it (through structs /
                     fixed-size lists) — `defOK` of a fixed-size list of size `m > 1` therefore also requires
@@ -208,7 +208,7 @@ end
 mutual
 /-- `serialize_default` is supported by the builder of this type (all of its parts that receive it), at the price of
 at most one unit of head room per call: one default / `None` of a `FixedSizeList(_, m)` sends `m` defaults to the
-child, so no union may be reachable by defaults below a fixed-size list of size `m > 1` (`noDefUF`; repo fix fe68100:
+child, so no union may be reachable by defaults below a fixed-size list of size `m > 1` (`noDefUF`; repo fix 217d612:
 every default row of a union counts against `i32::MAX` rows of its first real variant) -/
 def defOK : DataType → Metadata → Bool
   | .null, md => !isUnknownVariant .null md
